@@ -63,6 +63,23 @@ def register2(op):
 
 
     @op
+    def marsh_fastloads(a):
+        """xdis.marsh.loads on given byte strings (well-formed, truncated, mutated): canonical tree or exception class"""
+        import xdis.marsh as XM
+        out = []
+        for h in a["streams"]:
+            try:
+                v = XM.loads(bytes.fromhex(h))
+                try:
+                    out.append(["ok", mcanon.tree(v)])
+                except Exception as e:  # noqa  (e.g. the _NULL sentinel inside a container)
+                    out.append(["untreeable", type(e).__name__])
+            except Exception as e:  # noqa
+                out.append(["err", type(e).__name__])
+        return {"results": out}
+
+
+    @op
     def marsh_history(a):
         """marshal code objects of other versions in THIS process (xdis.marsh.dumps and write_bytecode_file of
         Python 2.x and 3.x files of the repository's corpus): what the writer did before must not matter later"""
